@@ -4,3 +4,6 @@ import CGV.Props.C01
 #print axioms CGV.C01.C01_bond_order
 #print axioms CGV.C01.C01_uncut
 #print axioms CGV.C01.C01_hydrogens
+#print axioms CGV.restore_aux
+#print axioms CGV.Rem.unit
+#print axioms CGV.Rem.edge
